@@ -223,3 +223,47 @@ def run_literal_verbatim(P, rep, rule="R-VERBATIM.literal"):
         rep.viol(rule, "parse_literal StringLiteral", P.where(fn), "the delimiting quotes are not removed by slicing")
     else:
         rep.ok(rule, "parse_literal StringLiteral", P.where(fn), "value = literal[1..len-1].to_owned(), nothing else")
+
+
+NOCLAMP = ("saturating_sub", "saturating_add", "clamp", "min", "max", "unsigned_abs", "rem_euclid", "wrapping_add", "wrapping_sub",
+           "abs", "checked_rem", "rem", "wrapping_rem", "abs_diff")
+
+
+def run_noclamp(P, rep, rule="R-NOCLAMP"):
+    """Index conversion must keep an out-of-range index out of range (no clamping / wrapping onto a neighbour)."""
+    keys = ["liquid_core::model::array::convert_index",
+            "<alloc::vec::Vec<T> as liquid_core::model::array::ArrayView>::get",
+            "<alloc::vec::Vec<T> as liquid_core::model::array::ArrayView>::contains_key"]
+    for key in keys:
+        fns = P.by_key(key)
+        if len(fns) != 1:
+            rep.anchor_missing(rule, key)
+            continue
+        fn = fns[0]
+        bad = []
+        for bi, t in P.calls(fn):
+            f = t.get("f")
+            if f and f["id"].rsplit("::", 1)[1] in NOCLAMP and (f["name"].startswith("core::num::") or f["name"].startswith("std::cmp::") or f["name"].startswith("core::cmp::")):
+                bad.append(f["name"])
+        rems = [st[2]["op"] for b in fn.blocks for st in b["s"] if st[0] == "a" and st[2]["k"] == "bin" and st[2]["op"] in ("Rem", "BitAnd")]
+        site = key.rsplit("::", 1)[-1] if "<" not in key else "Vec::" + key.rsplit("::", 1)[-1]
+        if bad or rems:
+            rep.viol(rule, site, P.where(fn), "index conversion uses %s: an index outside the array is folded onto an existing element instead of failing" % (bad + rems))
+        else:
+            rep.ok(rule, site, P.where(fn), "no clamping/wrapping operation on the index")
+    # negative indices: exactly `max_size + index` on the negative branch
+    fn = P.by_key(keys[0])
+    if len(fn) == 1:
+        fn = fn[0]
+        adds = [st for b in fn.blocks for st in b["s"] if st[0] == "a" and st[2]["k"] == "bin" and st[2]["op"].replace("WithOverflow", "") == "Add"]
+        subs = [st for b in fn.blocks for st in b["s"] if st[0] == "a" and st[2]["k"] == "bin" and st[2]["op"].replace("WithOverflow", "") in ("Sub", "Mul", "Neg")]
+        if len(adds) == 1 and not subs:
+            ok_ops = {op_local(adds[0][2]["a"])[0] if op_local(adds[0][2]["a"]) else None, op_local(adds[0][2]["b"])[0] if op_local(adds[0][2]["b"]) else None}
+            from mirutil import copy_root
+            roots = {copy_root(fn, x) for x in ok_ops if x is not None}
+            if roots == {1, 2}:
+                rep.ok(rule, "convert_index arithmetic", P.where(fn), "negative index -> max_size + index (parameters themselves, nothing else)")
+            else:
+                rep.viol(rule, "convert_index arithmetic", P.where(fn), "the negative-index conversion does not add the two parameters")
+        else:
+            rep.viol(rule, "convert_index arithmetic", P.where(fn), "expected exactly one addition (size + index), found adds=%d other=%d" % (len(adds), len(subs)))
